@@ -335,5 +335,90 @@ class AsyncAdaptersH(Harness):
         return AsyncExec(cfg)
 
 
-HARNESSES = {'buffer': BufferH, 'parmap': ParmapH, 'async_adapters': AsyncAdaptersH}
-PLAN = {'quick': ['buffer', 'parmap', 'async_adapters'], 'thorough': ['buffer', 'parmap', 'async_adapters']}
+class FifoStopExec(Exec):
+    """fifo_stream used directly (as Server.stream does) with small capacities; futures are resolved by the function itself"""
+
+    def __init__(self, cfg):
+        self.cfg = cfg
+
+    def body(self):
+        import concurrent.futures
+        from mpservice.streamer._streamer import fifo_stream
+        cfg = self.cfg
+        kind, k = cfg['ev']
+
+        def src():
+            for i in range(cfg['n']):
+                if kind == 'src_raise' and i == k:
+                    raise Boom('src', i)
+                yield i
+
+        def func(x):
+            fut = concurrent.futures.Future()
+            if kind == 'func_raise' and x == k:
+                fut.set_exception(Boom('func', x))
+            else:
+                fut.set_result(x * 10)
+            return fut
+
+        out = []
+        end = None
+        it = fifo_stream(src(), func, capacity=cfg['capacity'])
+        try:
+            for y in it:
+                out.append(y)
+                if kind == 'break' and len(out) >= k:
+                    break
+            end = 'end'
+        except Boom:
+            end = 'Boom'
+        it.close()
+        del it
+        return out, end, live_threads()
+
+    def verdict(self, r):
+        v = default_verdict(r)
+        if v:
+            return v
+        cfg = self.cfg
+        kind, k = cfg['ev']
+        out, end, alive = r.value
+        m = min(k, cfg['n']) if kind != 'none' else cfg['n']
+        eo = [i * 10 for i in range(m)]
+        ee = 'Boom' if kind in ('src_raise', 'func_raise') and k < cfg['n'] else 'end'
+        if out != eo or end != ee:
+            return (f'wrong-output:{kind}', f'got {out} {end}, expected {eo} {ee}')
+        if alive:
+            return ('thread-leak:' + ','.join(alive), f'threads still running after close: {alive}')
+        return None
+
+
+class FifoStopH(Harness):
+    name = 'fifo_stop'
+    opts = dict(max_points=4000, timers='free')
+
+    def setup(self):
+        from mpservice._queues import SingleLane
+        from mpservice.streamer import _streamer as S
+        codes = []
+        for f in (S.fifo_stream, SingleLane.put, SingleLane.get):
+            codes += sched.all_codes(f)
+        return codes
+
+    def configs(self, tier):
+        out = []
+        d = 2 if tier == 'quick' else 3
+        for capacity in (1, 2):
+            n = capacity + 4
+            for ev in (['none', 0], ['break', 1], ['break', 2], ['func_raise', 0], ['func_raise', 1], ['func_raise', 2],
+                       ['src_raise', 1], ['src_raise', 3]):
+                out.append(dict(capacity=capacity, n=n, ev=ev, bound=d if capacity == 1 else d - 1,
+                                cap=60000 if tier == 'quick' else 600000))
+        return out
+
+    def new(self, cfg):
+        return FifoStopExec(cfg)
+
+
+HARNESSES = {'buffer': BufferH, 'parmap': ParmapH, 'async_adapters': AsyncAdaptersH, 'fifo_stop': FifoStopH}
+PLAN = {'quick': ['buffer', 'parmap', 'async_adapters', 'fifo_stop'], 'thorough': ['buffer', 'parmap', 'async_adapters', 'fifo_stop']}
